@@ -216,7 +216,9 @@ pub fn check_end_state(case: &SchedCase, rr: &RunRec, stats: &mut C08Stats) -> V
         }
     }
     let img = crate::store::read_image(&rr.dir);
-    let Some(final_model) = rr.models.last() else { return out };
+    // (a history that ends with a purge that was never flushed is judged on the state before that purge)
+    let unflushed_tail = case.hist.tags.iter().any(|t| t == "ends_with_unflushed_purge") && rr.models.len() >= 2;
+    let Some(final_model) = (if unflushed_tail { rr.models.get(rr.models.len() - 2) } else { rr.models.last() }) else { return out };
     let Some(purged) = final_model.st.purged else { return out };
     stats.end_state_checks += 1;
     // The statement speaks about the chunks that were closed when the purge was flushed: those
@@ -224,7 +226,9 @@ pub fn check_end_state(case: &SchedCase, rr: &RunRec, stats: &mut C08Stats) -> V
     // open then and was closed later is only examined by the store at the next purge.)
     let mut purge_chunk_ix = None;
     for (k, (_, b)) in img.iter().enumerate() {
-        if refcodec::parse_file(b).recs.iter().any(|(_, _, r)| matches!(r, Rec::Purge(_))) {
+        // the record of the purge that is being judged (with an unflushed purge at the end of the history a later purge
+        // record may be on disk as well, written by a rotation)
+        if refcodec::parse_file(b).recs.iter().any(|(_, _, r)| matches!(r, Rec::Purge(id) if *id == purged || !unflushed_tail)) {
             purge_chunk_ix = Some(k);
         }
     }
@@ -232,7 +236,8 @@ pub fn check_end_state(case: &SchedCase, rr: &RunRec, stats: &mut C08Stats) -> V
     // a chunk that was closed BY the purge record itself (the record is its last one) was already closed when the
     // purge looked for obsolete chunks
     if limit + 1 < img.len() {
-        if let Some((_, _, Rec::Purge(_))) = refcodec::parse_file(&img[limit].1).recs.last() {
+        if let Some((_, _, Rec::Purge(id))) = refcodec::parse_file(&img[limit].1).recs.last() {
+            let _ = id;
             limit += 1;
         }
     }
@@ -271,7 +276,22 @@ pub fn gen_case(seed: u64, hist: u64) -> SchedCase {
     p.max_ops = 60;
     p.end_sync = true;
     p.reopen_pm = if r.chance(1, 4) { 25 } else { 0 };
-    let h = seq::gen_case(r.next(), hist, &p, "C08");
+    let mut h = seq::gen_case(r.next(), hist, &p, "C08");
+    // a sixth of the histories end with a purge that is never flushed, followed by the drop of the store (inside the
+    // trace): nothing may be deleted on account of a purge that is recorded nowhere
+    if r.chance(1, 6) {
+        let mut m = crate::model::Model::new();
+        for s in &h.steps {
+            if s.op.is_write() && matches!(s.expect, crate::genr::Expect::Accept) {
+                let _ = crate::genr::Gen::apply_to_model(&mut m, &s.op);
+            }
+        }
+        // (only when a live entry above the purge point exists: otherwise the purge would be a no-op and journal nothing)
+        if let Some(target) = m.log.values().map(|e| e.0).filter(|id| Some(*id) > m.st.purged && m.st.purged.map(|p| id.1 > p.1).unwrap_or(true)).last() {
+            h.steps.push(crate::genr::Step { op: crate::store::Op::Purge(target), expect: crate::genr::Expect::Accept });
+            h.tags.push("ends_with_unflushed_purge".into());
+        }
+    }
     let sched = sched::gen_sched(&mut r, h.steps.len());
     let w = r.below(100);
     let faults = if w < 50 {
@@ -285,8 +305,11 @@ pub fn gen_case(seed: u64, hist: u64) -> SchedCase {
     } else if w < 96 {
         let n = r.below(20) as u32;
         vec![FaultSpec { role: Role::Worker, kind: Sk::Sync, nth: n, action: "eio".into() }, FaultSpec { role: Role::Worker, kind: Sk::Sync, nth: n + 1 + r.below(3) as u32, action: "eio".into() }]
-    } else {
+    } else if w < 98 {
         vec![FaultSpec { role: Role::Worker, kind: Sk::Write, nth: r.below(15) as u32, action: "eio".into() }]
+    } else {
+        // an unlink fails: whatever the worker does next, it must not delete a newer chunk while an older one is left
+        vec![FaultSpec { role: Role::Worker, kind: Sk::Unlink, nth: r.below(6) as u32, action: "eio".into() }]
     };
     SchedCase { hist: h, sched, faults, reader_steps: vec![], gate_acks: false }
 }
